@@ -17,6 +17,7 @@ CONSTANTS
   MaxLevel = 26
   EmitJson = FALSE
   PruneOnlyOwned = FALSE
+  PushOnlyChanged = FALSE
   AtomicPush = TRUE
   FixSelect = TRUE
   FixDirect = TRUE
